@@ -31,6 +31,7 @@ fn parent(args: &Args) {
     run::classify_ends(&ends, &mut out, true);
     let mut extra = Map::new();
     vlib::sanlayer::run_layers(ID, args, &mut out, &mut extra);
+    run::dbg_build_layer(ID, args, vec![ChildSpec::new("hist", args.get_u64("dbg_shards", 500)).arg("hist", args.get_u64("hist", 300)).timeout(900)], &mut out, &mut extra);
     run::finish(
         Finish {
             id: ID,
